@@ -62,6 +62,7 @@ type interpreter struct {
 	branches           int64
 	recent             []string
 	noIfconv           bool
+	panicShown         bool
 	qlzBoth            bool
 	exactFmt           bool // format symbolic integers exactly (forks over their values)
 }
@@ -581,6 +582,12 @@ func runFrame(fr *frame) {
 		case engineAbort, killPanic, crashPanic:
 			panic(r) // never visible to the target program, deferred calls do not run
 		}
+		if debugTrace && !fr.i.panicShown {
+			if _, isRT := r.(runtime.Error); isRT {
+				fr.i.panicShown = true
+				fmt.Fprintf(os.Stderr, "runtime panic %v in %s block %d\n%s\n", r, fr.fn, fr.block.Index, debugStack())
+			}
+		}
 		fr.panicking = true
 		fr.panic = r
 		if fr.i.mode&EnableTracing != 0 {
@@ -688,3 +695,9 @@ func doRecover(caller *frame) value {
 	return iface{}
 }
 
+
+func debugStack() string {
+	buf := make([]byte, 1<<14)
+	n := runtime.Stack(buf, false)
+	return string(buf[:n])
+}
